@@ -10,6 +10,7 @@
 #include <sched.h>
 #include <time.h>
 #include <syslog.h>
+#include <dlfcn.h>
 #include "hx.h"
 
 #define NOINST __attribute__((no_instrument_function))
@@ -176,6 +177,40 @@ NOINST static void perturb(void) {
 	else __real_usleep((r >> 17) % 150);
 }
 
+/* ------------------------------------------------------------------ directed preemption (pause points)
+ * "pause <target> <k>": the k-th scheduling point (lock acquire attempt, lock release, optionally library function entry) of the target
+ * thread blocks until the scenario says "release" or until some other thread waits for a lock the paused thread holds (that thread is
+ * then serialised behind it, which is all a scheduler could do as well). Lets a scenario run a whole call of thread B *inside* a chosen
+ * point of thread A's call (or of the receiver's processing of one packet) - a systematic sweep over k replaces luck. */
+static atomic_int sp_kind = 0;      /* 0 off, 1 role, 2 worker index, 3 main thread */
+static atomic_int sp_val = 0, sp_k = 0, sp_count = 0, sp_fn = 0;
+atomic_int sp_paused = 0;           /* 0 not (yet), 1 paused now, 2 resumed */
+atomic_int sp_release = 0;
+__thread int hx_widx = -1;
+static int blocked_by_me(void);
+NOINST void mon_pause_arm(int kind, int val, int k, int fn) {
+	sp_kind = 0; sp_val = val; sp_k = k; sp_count = 0; sp_fn = fn; sp_paused = 0; sp_release = 0; sp_kind = kind;
+}
+NOINST int mon_pause_disarm(void) { sp_kind = 0; sp_release = 1; return sp_count; }
+NOINST static void sched_point(const char *kind, const char *name) {
+	int tk = sp_kind;
+	if (!tk) return;
+	if (tk == 1 ? hx_role != sp_val : tk == 2 ? hx_widx != sp_val : (hx_tid != 0)) return;
+	int c = atomic_fetch_add(&sp_count, 1) + 1;
+	if (c != sp_k) return;
+	char d[512]; mon_held_describe(d, sizeof d);
+	ev("\"e\":\"paused\",\"k\":%d,\"kind\":\"%s\",\"at\":\"%s\",\"held\":\"%s\",\"call\":\"%s\"", c, kind, name, d, hx_curcall);
+	sp_paused = 1;
+	const char *why = "timeout"; int waited = 0;
+	while (waited < 4000000) {
+		if (sp_release) { why = "released"; break; }
+		if (blocked_by_me()) { why = "waiter"; break; }
+		__real_usleep(40); waited += 40;
+	}
+	sp_paused = 2;
+	ev("\"e\":\"resumed\",\"k\":%d,\"why\":\"%s\"", c, why);
+}
+
 /* ------------------------------------------------------------------ lock monitor */
 atomic_int mon_armed = 0;
 atomic_int mon_contracts_on = 1;
@@ -189,6 +224,7 @@ NOINST static void die_deadlock(const char *what, int li) {
 NOINST static void before_acquire(void *lk, int mode) {
 	thr_t *t = self();
 	perturb();
+	if (sp_kind) { __real_pthread_mutex_lock(&mon_mx); int l0 = lock_index(lk, mode != 0); __real_pthread_mutex_unlock(&mon_mx); sched_point(mode == 0 ? "lock" : mode == 1 ? "rdlock" : "wrlock", locks[l0].name); }
 	__real_pthread_mutex_lock(&mon_mx);
 	int li = lock_index(lk, mode != 0);
 	int conflict = 0;
@@ -254,6 +290,7 @@ NOINST int __wrap_pthread_mutex_unlock(pthread_mutex_t *m) {
 	on_release(m, 0);
 	int r = __real_pthread_mutex_unlock(m);
 	perturb();
+	if (sp_kind) sched_point("unlock", "mutex");
 	return r;
 }
 NOINST int __wrap_pthread_rwlock_rdlock(pthread_rwlock_t *l) {
@@ -272,6 +309,7 @@ NOINST int __wrap_pthread_rwlock_unlock(pthread_rwlock_t *l) {
 	on_release(l, 1);
 	int r = __real_pthread_rwlock_unlock(l);
 	perturb();
+	if (sp_kind) sched_point("unlock", "rwlock");
 	return r;
 }
 NOINST int __wrap_pthread_mutex_init(pthread_mutex_t *m, const pthread_mutexattr_t *a) {
@@ -374,6 +412,30 @@ NOINST int mon_receiver_blocked_by_me(void) {
 	for (int i = 0; i < nthr && !r; i++) {
 		if (!thrs[i].alive || thrs[i].role != ROLE_RECEIVER || thrs[i].wait_li < 0) continue;
 		for (int j = 0; j < t->nheld; j++) if (t->held[j].lock == thrs[i].wait_lock) r = 1;
+	}
+	__real_pthread_mutex_unlock(&mon_mx);
+	return r;
+}
+
+/* the receiver waits for a lock that another thread holds in a conflicting mode */
+NOINST int mon_receiver_blocked(void) {
+	int r = 0;
+	__real_pthread_mutex_lock(&mon_mx);
+	for (int i = 0; i < nthr && !r; i++) {
+		if (!thrs[i].alive || thrs[i].role != ROLE_RECEIVER || thrs[i].wait_li < 0) continue;
+		for (int a = 0; a < nthr && !r; a++) for (int j = 0; j < thrs[a].nheld; j++)
+			if (a != i && thrs[a].held[j].lock == thrs[i].wait_lock && (thrs[a].held[j].mode != 1 || thrs[i].wait_mode != 1)) { r = 1; break; }
+	}
+	__real_pthread_mutex_unlock(&mon_mx);
+	return r;
+}
+NOINST static int blocked_by_me(void) {
+	thr_t *t = self(); int r = 0;
+	__real_pthread_mutex_lock(&mon_mx);
+	for (int i = 0; i < nthr && !r; i++) {
+		if (&thrs[i] == t || !thrs[i].alive || thrs[i].wait_li < 0) continue;
+		for (int j = 0; j < t->nheld; j++)
+			if (t->held[j].lock == thrs[i].wait_lock && (t->held[j].mode != 1 || thrs[i].wait_mode != 1)) r = 1;
 	}
 	__real_pthread_mutex_unlock(&mon_mx);
 	return r;
@@ -536,6 +598,10 @@ NOINST static void chash_build(void) {
 }
 NOINST void __cyg_profile_func_enter(void *fn, void *site) {
 	(void)site;
+	if (sp_kind && sp_fn && hx_role != ROLE_HARNESS) {
+		static __thread int in_sp = 0;
+		if (!in_sp) { in_sp = 1; Dl_info di; const char *nm = (dladdr(fn, &di) && di.dli_sname) ? di.dli_sname : "static-fn"; sched_point("fn", nm); in_sp = 0; }
+	}
 	if (!mon_armed || !mon_contracts_on || !chash) return;
 	if (hx_role == ROLE_HARNESS) return;
 	size_t h = ((uintptr_t)fn >> 4) & (chash_n - 1);
